@@ -366,6 +366,8 @@ def validate(rc):
         if "self.nodes()" not in norm(lp.iter):
             rc.fail(f, lp, "every node of the model must be checked", construct="all nodes")
     rc.ob(f"check_model: {len(loops)} passes over all nodes")
+    # every self.method() of the factor / CPD classes resolves in the class that calls it
+    shared.undefined_self_method_rule(rc, (DF, CPD, "pgmpy/factors/base.py", "pgmpy/factors/discrete/JointProbabilityDistribution.py"))
     # is_valid_cpd
     g = repo.func(DF, "DiscreteFactor.is_valid_cpd")
     r = returns_of(g)[-1].value
@@ -375,7 +377,8 @@ def validate(rc):
     if not (isinstance(r, ast.Call) and call_name(r) == "allclose"):
         rc.fail(g, g.node, "is_valid_cpd must compare the column sums with ones within a tolerance", construct="allclose")
     else:
-        if "marginalize(self.scope()[:1]" not in txt and "marginalize([self.variables[0]]" not in txt and "marginalize(self.variables[:1]" not in txt:
+        if "marginalize(self.scope()[:1]" not in txt and "marginalize([self.variables[0]]" not in txt and "marginalize(self.variables[:1]" not in txt \
+                and "DiscreteFactor.marginalize(self, self.scope()[:1]" not in txt:
             rc.fail(g, r, "column sums are obtained by summing out the FIRST variable (the child)", construct="sum over child")
         if "ones(" not in txt:
             rc.fail(g, r, "column sums must be compared with 1", construct="compare with ones")
@@ -392,6 +395,8 @@ def defuse(rc):
     _sh.defuse_rule(rc, _sh.anchor_files("C05"))
 
 MUTANTS = [
+    dict(kind="break", name="is-valid-cpd-needs-subclass-method", file=DF, expect="C05.validate",
+         old="            DiscreteFactor.marginalize(\n                self, self.scope()[:1], inplace=False\n            ).values.flatten(),", new="            self.to_factor().marginalize(self.scope()[:1], inplace=False).values.flatten(),"),
     dict(kind="break", name="ctor-fortran-flatten", file=CPD, expect="C05.layout",
          old="variables, cardinality, values.flatten(), state_names=state_names", new="variables, cardinality, values.flatten(\"F\"), state_names=state_names"),
     dict(kind="break", name="get-values-transposed", file=CPD, expect="C05.layout",
